@@ -21,6 +21,7 @@ caller, as a state machine).  Helper lemmas: `Tahoe/Happiness/LemmasPlacement*.l
 | "spreads shares over the largest number of distinct servers achievable under those constraints" | `spread_maximal` (no placement respecting the read-only clause uses more distinct servers), `spread_ge_matching` (same against every server/share matching), `phase_is_maximum_matching` (each phase is a maximum matching of its network) |
 | "so an upload is never declared unhappy when a happy layout was reachable" | the plan part is the line above; the allocation loop of `Tahoe2ServerSelector.get_shareholders` that consumes the plan is **monitor only** (`harness/props/c07.py` `run_grid`: real selection on the in-process grid with a failing server); the plan the loop sees is fresh: `plan_is_fresh`, `state_ignores_gets` |
 | the plan's *input*: what the uploader told the selector before the first plan | specification `toldState` (every server added, read-only ones demoted, every share on disk booked under the server that answered with it) with `told_state_is_ground_truth`; that `Tahoe2ServerSelector.get_shareholders` really puts the selector into that state is **correspondence + monitor** (`run_reupload`: re-uploads on the in-process grid, recorded selector state vs shares on disk and vs `toldState`) |
+| between plans: a server whose allocation failed **or timed out** must leave the writable set | event `SelOp.allocationFailed` (= demotion) with `failed_server_not_writable`, `plan_after_failed_allocation`; that `_buckets_allocated` performs the demotion for every kind of failure incl. the 15 s query timeout is **correspondence + monitor** (`run_grid`: error / hang faults on allocate_buckets and get_buckets, selector state at every plan) |
 | (code before the repairs) | `readonly_only_existing_counterexample`, `shared_indexedShares_row`, `spread_maximal_counterexample`, `spread_maximal_counterexample_after_first_fix`: clauses 2 and 3 are false of `Cfg.asIs` |
 
 Not covered by theorems: existing-share entries of servers in neither set (bad servers) and share
@@ -282,5 +283,40 @@ theorem plan_of_told_state_readonly (total nsrv : Nat) (ro : List Nat) (held : S
   exact ⟨x, hx, hx1, hx2⟩
 
 example : (toldState 4 4 [1] [(1, [0])]).peers ≠ [] := by decide
+
+/-- **failed_server_not_writable**: once the allocation on server `p` has failed -- for any reason,
+including the uploader's query timeout (`SelOp.allocationFailed`) -- `p` is not in the writable set
+of any later state, whatever else happens, until someone adds it again; so no later plan is
+computed with `p` as a writable server. -/
+theorem failed_server_not_writable (s : SelState) (p : Nat) (ops : List SelOp)
+    (hops : SelOp.addPeer p ∉ ops) :
+    p ∉ ((s.next (SelOp.allocationFailed p)).after ops).peers := by
+  apply not_writable_persists p ops hops
+  simp [SelState.next]
+
+/-- six writable servers, four shares; the plan uses servers 0..3; server 1's allocation fails
+(e.g. times out): the next plan is spread over four servers again, without server 1 -/
+example : (SelState.init 4).run Cfg.fixed
+    [.addPeer 0, .addPeer 1, .addPeer 2, .addPeer 3, .addPeer 4, .addPeer 5, .getPlacements,
+     SelOp.allocationFailed 1, .getPlacements]
+    = [.none, .none, .none, .none, .none, .none, .plan (.ok [(0, 0), (1, 1), (2, 2), (3, 3)]),
+       .none, .plan (.ok [(0, 0), (1, 2), (2, 3), (3, 4)])] := by decide +kernel
+
+/-- a later plan gives the failed server only shares it already holds: it stays read-only (unless it
+is later written off as bad), and the read-only clause applies to it -/
+theorem plan_after_failed_allocation (s : SelState) (p : Nat) (ops : List SelOp)
+    (hbad : SelOp.markBad p ∉ ops) (res : List (Nat × Nat))
+    (hW : ((s.next (SelOp.allocationFailed p)).after ops).peers ≠ [])
+    (hdisj : ∀ x ∈ ((s.next (SelOp.allocationFailed p)).after ops).peers,
+      x ∉ ((s.next (SelOp.allocationFailed p)).after ops).readonly)
+    (h : ((s.next (SelOp.allocationFailed p)).after ops).plan Cfg.fixed = .ok res) :
+    ∀ sh, (sh, p) ∈ res →
+      ∃ x ∈ ((s.next (SelOp.allocationFailed p)).after ops).existing, x.1 = p ∧ sh ∈ x.2 := by
+  intro sh hsp
+  have hro : p ∈ ((s.next (SelOp.allocationFailed p)).after ops).readonly :=
+    readonly_persists p ops hbad _ (by simp [SelState.next, mem_sinsert])
+  exact readonly_only_existing _ _ _ _ res hW hdisj h sh p hsp hro
+
+example : SelOp.markBad 1 ∉ [SelOp.getPlacements, SelOp.addPeerWithShare 1 0] := by decide
 
 end Tahoe.C07
